@@ -2,8 +2,8 @@
 """Rewrites section 11 of DESIGN.md from seeded/*/meta.json plus the hand-written strengthening tables below."""
 import json, os, re
 ROOT = os.path.dirname(os.path.dirname(os.path.abspath(__file__)))
-rows = {1: [], 2: []}
-stats = {1: [0, 0], 2: [0, 0]}
+rows = {1: [], 2: [], 3: []}
+stats = {1: [0, 0], 2: [0, 0], 3: [0, 0]}
 for d in sorted(os.listdir(os.path.join(ROOT, 'seeded'))):
     m = json.load(open(os.path.join(ROOT, 'seeded', d, 'meta.json')))
     summ = re.sub(r'\s+', ' ', (m.get('summary') or '').replace('|', '/'))
@@ -14,16 +14,17 @@ for d in sorted(os.listdir(os.path.join(ROOT, 'seeded'))):
     rows[r].append('| %s | %s | %s | %s |' % (d, summ, 'missed, then caught' if m.get('missed_at_first') else 'caught', ', '.join(m.get('caught_by') or ['-'])))
 STRENGTH1 = open(os.path.join(ROOT, 'tools', 'design11_round1.md')).read()
 STRENGTH2 = open(os.path.join(ROOT, 'tools', 'design11_round2.md')).read()
+STRENGTH3 = open(os.path.join(ROOT, 'tools', 'design11_round3.md')).read()
 txt = '''
 ---------------------------------------------------------------------------------------
 
 ## 11. Seeded changes: which checks catch which
 
-Eighty changes to initia-labs/OPinit were written by **independent sub-agents** in two rounds
-(two per property and round; each agent saw only the text of its property and its own scratch
-worktree, nothing from /verif; in round 2 the property text was followed by one-line summaries
-of the two round-1 ideas for that property, with the request to find something different and
-subtler). Each was asked for a change that breaks the property, still compiles, passes the 157
+One hundred and twenty changes to initia-labs/OPinit were written by **independent sub-agents**
+in three rounds (two per property and round; each agent saw only the text of its property and its
+own scratch worktree, nothing from /verif; in rounds 2 and 3 the property text was followed by
+one-line summaries of the earlier ideas for that property, with the request to find something
+different and subtler). Each was asked for a change that breaks the property, still compiles, passes the 157
 existing tests, and needs something specific to manifest; each came with a demonstration test.
 Every one was confirmed here with `tools/mutant_eval.sh` in a fresh scratch worktree of /repo
 HEAD (demo passes on the clean tree, fails with the change; build ok; unedited suite passes with
@@ -36,9 +37,10 @@ the tracked files), quick tier, `VERIF_SEED=1`.
 |---|---|---|
 | 1 (A, B) | %d of %d | %d of %d |
 | 2 (C, D) | %d of %d | %d of %d |
+| 3 (E, F) | %d of %d | %d of %d |
 
 "caught by" lists every check that was run against the change and exited 1 (round 1: the
-property's own check plus a related set of 4-10 checks; round 2: the own check); every other
+property's own check plus a related set of 4-10 checks; rounds 2 and 3: the own check); every other
 check of the set stayed silent (exit 0) - no unrelated check raised an alarm on any change -
 except C16 on C18-A/B and C02 on C01-A, which were inconclusive (exit 2: a nondeterministic
 validator-update order makes rapid report "flaky"; one run was disturbed by a concurrent clean-up).
@@ -47,17 +49,26 @@ validator-update order makes rapid report "flaky"; one run was disturbed by a co
 
 | id | change | own check | caught by |
 |---|---|---|---|
-''' % (stats[1][0], stats[1][1], stats[1][1], stats[1][1], stats[2][0], stats[2][1], stats[2][1], stats[2][1]) + '\n'.join(rows[1]) + '\n' + STRENGTH1 + '''
+''' % (stats[1][0], stats[1][1], stats[1][1], stats[1][1], stats[2][0], stats[2][1], stats[2][1], stats[2][1], stats[3][0], stats[3][1], stats[3][1], stats[3][1]) + '\n'.join(rows[1]) + '\n' + STRENGTH1 + '''
 ### Round 2
 
 | id | change | own check | caught by |
 |---|---|---|---|
 ''' + '\n'.join(rows[2]) + '\n' + STRENGTH2 + '''
+### Round 3
+
+| id | change | own check | caught by |
+|---|---|---|---|
+''' + '\n'.join(rows[3]) + '\n' + STRENGTH3 + '''
 What this does **not** show: the changes were written against the properties, not against the
-checks, but they are four per property and of the kind an LLM finds plausible; the second round,
-asked for subtlety, got past the first version of 25 of 40 checks, so a third round would
-probably still find gaps of the same kinds - inputs at a scale, at a boundary or in a spelling the
-generators do not produce. The class histograms in each evidence file are the guard against
+checks, but they are six per property and of the kind an LLM finds plausible; the second round,
+asked for subtlety, got past the first version of 25 of 40 checks and the third past 24 of 40, so
+a fourth round would still find gaps. Their kinds shifted, though: round 2 mostly found inputs at a
+scale, at a boundary or in a spelling the generators did not produce; round 3 mostly found
+*environment* assumptions of the harness - one goroutine, one committed context, a store that was
+never exported and re-imported, a chain that did not start from genesis, callers that only read
+what they are given, nothing running during a bank transfer. Those are now generated dimensions
+(concurrency, discarded branches, restarts, genesis start, aliasing, re-entrancy). The class histograms in each evidence file are the guard against
 silently losing such a class again (a generator health check fails the run when a named class
 is nearly empty), and every class added for a seeded change is named there.
 '''
